@@ -170,10 +170,15 @@ def _gl_integrals(theory, sph, nmed, wl, N, k):
     return csca, gcs, S
 
 
-def _forward(theory, sph, nmed, wl):
+def _forward(theory, sph, nmed, wl, stale=False):
     import holopy as hp
     from holopy.scattering import calc_scat_matrix
     det = hp.detector_points(theta=np.array([0.0]), phi=np.array([0.0]))
+    if stale:
+        # the detector already carries OTHER optics; the arguments must win
+        from holopy.core.metadata import update_metadata
+        det = update_metadata(det, medium_index=1.0, illum_wavelen=0.4,
+                              illum_polarization=(0, 1))
     return calc_scat_matrix(det, sph, nmed, wl, theory=theory).values[0]
 
 
@@ -252,7 +257,13 @@ def _run_sphere(case, ck):
             scaled.append((csca * k * k, cext * k * k, g))
             # optical theorem through the scattering-matrix entry point
             S0 = _forward(Mie(), sph, nmed, wl)
-            ck.trans += 1
+            S0s = _forward(Mie(), sph, nmed, wl, stale=True)
+            ck.trans += 2
+            ck.true("optical-theorem-stale-detector-optics",
+                    np.array_equal(S0, S0s), "the forward amplitude changes "
+                    "when the detector object already carries other optics "
+                    "than the ones passed to calc_scat_matrix (m=%r x=%r)" %
+                    (m, x))
             for name, s in (("S2", S0[0, 0]), ("S1", S0[1, 1])):
                 ot = 4 * math.pi / k ** 2 * s.real
                 e = abs(ot - cext) / abs(cext)
